@@ -342,6 +342,12 @@ func c19InitUnit() *Unit {
 			{label: "cwd-with-taskfile", args: []string{"--init"}, prepare: map[string]string{"Taskfile.yml": "mine\n"}, code: 101, keep: "Taskfile.yml"},
 			{label: "ext-only-existing", args: []string{"--init", ".yaml"}, prepare: map[string]string{"Taskfile.yaml": "mine\n"}, code: 101, keep: "Taskfile.yaml"},
 			{label: "sub-ext-only-existing", args: []string{"--init", "sub/.yml"}, prepare: map[string]string{"sub/Taskfile.yml": "mine\n"}, code: 101, keep: "sub/Taskfile.yml"},
+			// the directory spelled with dots
+			{label: "dot", args: []string{"--init", "."}, want: "Taskfile.yml"},
+			{label: "dot-slash", args: []string{"--init", "./"}, want: "Taskfile.yml"},
+			{label: "sub-dot", args: []string{"--init", "sub/."}, dirs: []string{"sub"}, want: "sub/Taskfile.yml"},
+			{label: "dot-existing", args: []string{"--init", "."}, prepare: map[string]string{"Taskfile.yml": "mine\n"}, code: 101, keep: "Taskfile.yml"},
+			{label: "dotdot-sub", args: []string{"--init", "sub/../sub"}, dirs: []string{"sub"}, want: "sub/Taskfile.yml"},
 			{label: "path-and-dashdash", args: []string{"--init", "A.yml", "--", "B.yml"}, want: "A.yml"},
 			{label: "only-after-dashdash", args: []string{"--init", "--", "B.yml"}, want: "Taskfile.yml"},
 		}
